@@ -155,6 +155,12 @@ def run_shard(spec_, res):
                 res.count("unsaveable_cases")
                 continue
             judge(res, rawp, Sp, c.describe(), f"in-project:{T}")
+            try:
+                syn_att = api.Synth(c.obj)        # the module now belongs to a project; the .sunsynth must still be a .sunsynth
+                raw_att = syn_att.read()
+                judge(res, raw_att, build.norm(snapshot.snap_synth(syn_att), "before"), c.describe(), f"synth-of-attached:{T}")
+            except Exception:
+                res.count("unsaveable_cases")
     # metamodules with forced nesting (C15 workload)
     start = 900000 + spec_["shard"] * spec_["metamodules"]
     for i in range(start, start + spec_["metamodules"]):
